@@ -182,6 +182,9 @@ pub struct ArgCtx {
     /// (enumeration name, value): used with probability 3/4 for arguments of that enumeration, so that the
     /// calls of one history agree on e.g. a storage class (relations between the arguments of different calls)
     pub prefer_enum: Vec<(&'static str, u32)>,
+    /// string arguments come from this small pool (names that recur across calls: an entry point named like a
+    /// function, a name looked up later)
+    pub tiny_strings: Option<&'static [&'static str]>,
 }
 
 pub struct RandArgs<'a> {
@@ -398,7 +401,10 @@ impl<'a> ArgSrc for RandArgs<'a> {
         v
     }
     fn string(&mut self, pname: &str) -> String {
-        let v = self.rng.pick(crate::geninst::STRING_POOL).to_string();
+        let v = match self.ctx.tiny_strings {
+            Some(t) => self.rng.pick(t).to_string(),
+            None => self.rng.pick(crate::geninst::STRING_POOL).to_string(),
+        };
         self.rec(pname, ArgV::Str(v.clone()));
         v
     }
